@@ -71,6 +71,10 @@ let run_hist ic =
       | "rc" :: rest ->
         let n = List.map int_of_string rest in
         ops := OReadChunk (zl (take !rank n)) :: !ops; names := "rc" :: !names
+      | "hr" :: _k :: rest ->
+        let n = List.map int_of_string rest in
+        let rec trip l = match l with a :: p :: c :: tl -> ((z_of_int a, z_of_int p), z_of_int c) :: trip tl | _ -> [] in
+        ops := OHRead (trip n) :: !ops; names := "hr" :: !names
       | [ "reopen" ] -> ops := OReopen :: !ops; names := "reopen" :: !names
       | [ "cache"; n ] -> ops := OCache (z_of_int (int_of_string n)) :: !ops; names := "cache" :: !names
       | [ "end" ] ->
